@@ -39,7 +39,7 @@ COVER_CFG = ("INIT Init\nNEXT Next\nVIEW View\nCHECK_DEADLOCK FALSE\nINVARIANT T
              "CONSTANT MaxFrags = 14\nCONSTANT KnownDefects = {}\n")
 CLASSES = ["<", ">", "/", "!", "?", "-", "=", '"', "'", "&", ";", "#", "x", "X", "a", "Z", "1", "[", "]", " ", "\t", "\n", "\x0c",
            "\x00", "é", "\U0001f600", "`", "s"]
-CORE_W = ["", ">", "x>", "-->", "\">", "'>", "<script></script>x<i>", "</script>y", "</title>z"]
+CORE_W = ["", ">", "x>", "-->", "\">", "'>", "<script></script>x<i>", "</script>y", "</title>z", "--></script>y"]
 MORE_W = ["->", "--!>", " y=z>", "/>", ";", "amp;<i>", "#38;", "]]>", "<!--x-->", "<a>", " ", "x", "=", "cript>", "itle>",
           "--><i>", "SYSTEM 's'>", "\"'><i>"]
 
